@@ -48,7 +48,7 @@ MANIFEST = {
 MULTI = ["sum", "prod", "min", "max", "mean", "std", "var"]
 BINARY = ["add", "subtract", "multiply", "divide", "pow"]
 NPBIN = {"add": np.add, "subtract": np.subtract, "multiply": np.multiply, "divide": np.divide, "pow": np.power}
-DTYPES = ["int64", "float64", "float32", "int8", "uint8", "int16", "bool"]
+DTYPES = ["int64", "float64", "float32", "int8", "uint8", "int16", "int32", "uint16", "bool"]
 DIMS = ["d0", "d1", "d2"]
 
 
@@ -147,9 +147,9 @@ def cases(draw):
 
 def _mk(raw, shape, dtype, flavour):
     a = np.asarray(raw, dtype="int64").reshape(shape)
-    if dtype in ("int8", "int16"):
+    if dtype in ("int8", "int16", "int32"):
         a = a * 30  # -120..120: fits the input dtype, sums and products of a few of them do not
-    elif dtype == "uint8":
+    elif dtype in ("uint8", "uint16"):
         a = np.abs(a) * 60
     a = (a != 0) if dtype == "bool" else a.astype(dtype)
     if flavour == "np":
